@@ -61,6 +61,8 @@ type canCase struct {
 	tc     int    // the victim's context ends at tc ms (absolute, scenario clock)
 	dl     bool   // … with context.DeadlineExceeded instead of context.Canceled
 	fault  string // none stall reject fail : what the transport does to the victim side's notifications/cancelled
+	//                 on fj (what the foreign server does with the POST of the notice): none late stall timeout s503 reset
+	rclose bool   // the RECEIVER of the victim's request starts a graceful Close 5 ms before the victim's context ends
 }
 
 func (c *canCase) cfgOp() string { return fmt.Sprintf("cfg tr=%s pv=%s", c.tr, c.pv) }
@@ -73,7 +75,11 @@ func (c *canCase) cancelOp() string {
 	if c.dl {
 		dl = 1
 	}
-	return fmt.Sprintf("x victim=%d when=%s tc=%d dl=%d fault=%s", c.victim, c.when, c.tc, dl, c.fault)
+	op := fmt.Sprintf("x victim=%d when=%s tc=%d dl=%d fault=%s", c.victim, c.when, c.tc, dl, c.fault)
+	if c.rclose {
+		op += " rc=1"
+	}
+	return op
 }
 
 const (
@@ -449,7 +455,7 @@ func (h *canH) script(ctx context.Context, ss *ServerSession, carrier int) {
 	}
 	select {
 	case <-h.follow:
-		if ctx.Err() == nil && h.c.calls[h.c.victim].dir == "s2cn" {
+		if ctx.Err() == nil && !h.c.rclose && h.c.calls[h.c.victim].dir == "s2cn" {
 			fctx, stop := context.WithTimeout(ctx, canFollowMs*time.Millisecond)
 			h.issue(fctx, canFollowN, "s2c", "ping", nil, ss)
 			stop()
@@ -559,6 +565,13 @@ type canForeign struct {
 	tag map[string]int
 }
 
+// canNetTimeout is what net/http's Transport reports when ResponseHeaderTimeout fires: a net.Error with Timeout().
+type canNetTimeout struct{}
+
+func (canNetTimeout) Error() string   { return "net/http: timeout awaiting response headers" }
+func (canNetTimeout) Timeout() bool   { return true }
+func (canNetTimeout) Temporary() bool { return true }
+
 type canForeignBody struct {
 	ctx   context.Context
 	ready chan struct{}
@@ -613,6 +626,28 @@ func (f *canForeign) RoundTrip(req *http.Request) (*http.Response, error) {
 	now := func(body string) io.ReadCloser { return io.NopCloser(strings.NewReader(body)) }
 	if len(msg.ID) == 0 { // a notification
 		if msg.Method == notificationCancelled {
+			fault := f.h.c.fault
+			if fault != "none" {
+				f.h.mu.Lock()
+				f.h.wfault[fault]++
+				f.h.mu.Unlock()
+			}
+			switch fault {
+			case "stall": // accepted, never acknowledged
+				<-req.Context().Done()
+				return nil, req.Context().Err()
+			case "timeout": // accepted, not acknowledged before the HTTP client's response-header timeout
+				select {
+				case <-time.After(300 * time.Millisecond):
+					return nil, canNetTimeout{}
+				case <-req.Context().Done():
+					return nil, req.Context().Err()
+				}
+			case "s503":
+				return f.resp(req, http.StatusServiceUnavailable, "", now("busy")), nil
+			case "reset":
+				return nil, errors.New("read tcp 192.0.2.1:1234: connection reset by peer")
+			}
 			f.mu.Lock()
 			ch, tag := f.can[string(msg.Params.RequestID)], f.tag[string(msg.Params.RequestID)]
 			delete(f.can, string(msg.Params.RequestID))
@@ -625,6 +660,9 @@ func (f *canForeign) RoundTrip(req *http.Request) (*http.Response, error) {
 				}
 				f.h.mu.Unlock()
 				close(ch)
+			}
+			if fault == "late" { // processed at once, acknowledged late
+				time.Sleep(time.Second)
 			}
 		}
 		return f.resp(req, http.StatusAccepted, "", now("")), nil
@@ -749,19 +787,22 @@ func canRunCase(t *testing.T, out *verifOut, id string, c *canCase) {
 
 		var ct Transport
 		var cleanup []func()
+		var pipeSS *ServerSession
 		getServer := func(*http.Request) *Server { return server }
 		url := "http://verif.invalid/mcp"
 		switch c.tr {
 		case "mem":
 			a, b := NewInMemoryTransports()
-			if _, err := server.Connect(context.Background(), &canFaultTransport{a, h, "server"}, nil); err != nil {
+			var err error
+			if pipeSS, err = server.Connect(context.Background(), &canFaultTransport{a, h, "server"}, nil); err != nil {
 				status = "connect-fail"
 			}
 			ct = &canFaultTransport{b, h, "client"}
 		case "io":
 			r1, w1 := io.Pipe()
 			r2, w2 := io.Pipe()
-			if _, err := server.Connect(context.Background(), &canFaultTransport{&IOTransport{Reader: r1, Writer: w2}, h, "server"}, nil); err != nil {
+			var err error
+			if pipeSS, err = server.Connect(context.Background(), &canFaultTransport{&IOTransport{Reader: r1, Writer: w2}, h, "server"}, nil); err != nil {
 				status = "connect-fail"
 			}
 			ct = &canFaultTransport{&IOTransport{Reader: r2, Writer: w1}, h, "client"}
@@ -793,7 +834,7 @@ func canRunCase(t *testing.T, out *verifOut, id string, c *canCase) {
 				status = "connect-fail"
 			}
 		}
-		stuck := 0
+		stuck, closeHung := 0, 0
 		if status == "ok" {
 			synctest.Wait()
 			h.mu.Lock()
@@ -804,8 +845,25 @@ func canRunCase(t *testing.T, out *verifOut, id string, c *canCase) {
 					h.start(context.Background(), i, cs, nil)
 				}
 			}
-			// the victim's context ends at tc
-			time.Sleep(time.Duration(c.tc) * time.Millisecond)
+			// the victim's context ends at tc; with rc the receiver of its request starts a graceful Close 5 ms before
+			closed := make(chan struct{})
+			if c.rclose && c.tc > 5 {
+				time.Sleep(time.Duration(c.tc-5) * time.Millisecond)
+				go func() {
+					defer close(closed)
+					if c.calls[c.victim].dir == "c2s" {
+						if pipeSS != nil {
+							pipeSS.Close()
+						}
+					} else {
+						cs.Close()
+					}
+				}()
+				time.Sleep(5 * time.Millisecond)
+			} else {
+				close(closed)
+				time.Sleep(time.Duration(c.tc) * time.Millisecond)
+			}
 			err := context.Canceled
 			if c.dl {
 				err = context.DeadlineExceeded
@@ -815,7 +873,9 @@ func canRunCase(t *testing.T, out *verifOut, id string, c *canCase) {
 			synctest.Wait()
 			// follow-up calls while everything else is still parked
 			close(h.follow)
-			h.followUp(canFollow1, cs)
+			if !c.rclose {
+				h.followUp(canFollow1, cs)
+			}
 			time.Sleep(canReleaseMs * time.Millisecond)
 			synctest.Wait()
 			// release every handler and wait for every call to return
@@ -834,13 +894,21 @@ func canRunCase(t *testing.T, out *verifOut, id string, c *canCase) {
 			synctest.Wait()
 			time.Sleep(canLateMs * time.Millisecond)
 			synctest.Wait()
-			h.followUp(canFollow2, cs)
+			if !c.rclose {
+				h.followUp(canFollow2, cs)
+			} else {
+				select { // the receiver's graceful Close must have completed: every handler has returned
+				case <-closed:
+				default:
+					closeHung = 1
+				}
+			}
 			synctest.Wait()
 		}
 		h.mu.Lock()
 		evs := append([]canEv(nil), h.evs...)
 		extra := h.extra
-		wf := fmt.Sprintf("stall=%d reject=%d fail=%d", h.wfault["stall"], h.wfault["reject"], h.wfault["fail"])
+		wf := fmt.Sprintf("stall=%d reject=%d fail=%d", h.wfault["stall"]+h.wfault["timeout"]+h.wfault["late"], h.wfault["reject"]+h.wfault["s503"]+h.wfault["reset"], h.wfault["fail"])
 		h.mu.Unlock()
 		total := time.Since(h.t0).Milliseconds()
 		// teardown (not observed)
@@ -864,7 +932,14 @@ func canRunCase(t *testing.T, out *verifOut, id string, c *canCase) {
 			recs = append(recs, [3]string{c.callOp(i), "ok", strings.Join([]string{"dir=" + k.dir, k.dir + ":" + k.meth, "mode=" + k.mode, "tr=" + c.tr + "/" + k.dir}, ",")})
 		}
 		vd := c.calls[c.victim].dir
-		recs = append(recs, [3]string{c.cancelOp(), "ok", strings.Join([]string{"when=" + c.when, "fault=" + c.fault, "victim=" + vd, "tr=" + c.tr + "/" + vd + "/" + c.when,
+		scope := "peer-cancel-expected"
+		if strings.HasPrefix(c.tr, "sl") && !strings.Contains(c.tr[2:], "p") {
+			scope = "stateless-nocancel" // request and notice are served by different one-shot connections: the clause peerNotCancelled does not apply
+		}
+		if c.rclose {
+			scope += ",receiver-closing"
+		}
+		recs = append(recs, [3]string{c.cancelOp(), "ok", strings.Join([]string{scope, "when=" + c.when, "fault=" + c.fault, "victim=" + vd, "tr=" + c.tr + "/" + vd + "/" + c.when,
 			"victim-mode=" + c.calls[c.victim].mode, map[bool]string{true: "deadline", false: "cancel"}[c.dl]}, ",")})
 		for seq, e := range evs {
 			op := fmt.Sprintf("e %d %s %d", seq, e.what, e.id)
@@ -881,7 +956,11 @@ func canRunCase(t *testing.T, out *verifOut, id string, c *canCase) {
 			}
 			recs = append(recs, [3]string{op, obs, tag})
 		}
-		recs = append(recs, [3]string{"end", fmt.Sprintf("extra=%d stuck=%d t=%d %s", extra, stuck, total, wf), "end"})
+		endObs := fmt.Sprintf("extra=%d stuck=%d t=%d %s", extra, stuck, total, wf)
+		if c.rclose {
+			endObs += fmt.Sprintf(" closehung=%d", closeHung)
+		}
+		recs = append(recs, [3]string{"end", endObs, "end"})
 		flush()
 	})
 }
@@ -993,6 +1072,14 @@ func canGen(rng *rand.Rand, tr string) *canCase {
 			c.fault = "reject" // the streamable and SSE clients turn every failed POST into a rejection
 		}
 	}
+	if tr == "fj" && rng.Intn(2) == 0 {
+		// what the foreign server does with the POST that carries the notice: 202 late / never / not before the HTTP
+		// client's response-header timeout / 503 / connection reset
+		c.fault = []string{"late", "stall", "timeout", "timeout", "s503", "reset"}[rng.Intn(6)]
+	}
+	if pipe && c.fault == "none" && c.when == "run" && v.mode != "drive" && c.tc > 5 && rng.Intn(5) == 0 {
+		c.rclose = true // the receiver closes gracefully while the call is in flight; only then the caller cancels
+	}
 	return c
 }
 
@@ -1024,6 +1111,7 @@ func canParse(lines []string) (*canCase, bool) {
 			c.tc, _ = strconv.Atoi(kv(f, "tc"))
 			c.dl = kv(f, "dl") == "1"
 			c.fault = kv(f, "fault")
+			c.rclose = kv(f, "rc") == "1"
 		}
 	}
 	return c, c.tr != "" && len(c.calls) > 0 && c.victim >= 0 && c.victim < len(c.calls)
